@@ -247,6 +247,38 @@ ONE={
 "C07-B10":("sync iterator snapshots ttl, tti and valid_after at creation","iterator (`&cache` into_iter) held across invalidate_all()"),
 "C12-A10":("sync `admit` passes over victims with an unapplied write (as C12-B9)","writer descheduled between its map update and queueing its op while another thread's popular insert is admitted"),
 "C12-B10":("sync `Inner::sync` calls `evict_lru_entries` once more with the amount computed for the first batch","weigher; more than 500 residents; one growth needing more than 500 evictions"),
+"C01-A11":("`set_instant_if_later`: check under a read lock, store under a separate write lock (as C02-A2)","two overlapping invalidate_all calls; real threads"),
+"C01-B11":("sync `evict_expired` unsets `valid_after` when its sweeps report nothing left, forgetting the exhausted batch (as C16-B10)","more than 500 admitted entries older than valid_after at the first maintenance run after invalidate_all"),
+"C02-A11":("sync `invalidate` returns early when `contains_key` is false (as C02-A5)","tti; a queued hit revives an entry that looked idle-expired when it was invalidated"),
+"C02-B11":("sync `insert` drops a value heavier than max_capacity before touching the map (as C02-B)","weigher; key present; oversized update keeps the stale value"),
+"C03-A11":("sync `handle_upsert`: the admitted-entry update path moved above the stale-op guard","two threads update one admitted key, ops queued in the opposite order of the map updates (R1 shape)"),
+"C03-B11":("unsync admission unlinks the victim's access-order node only (write-order node forgotten; as C03-A2)","ttl + max_capacity; victim evicted by a popular newcomer, its key inserted again, clock past the old deadline"),
+"C04-A11":("sync `handle_admit` adds the entry's stored weight instead of the op's weight (as C04-B9)","new key inserted twice with growing weight before maintenance"),
+"C04-B11":("unsync `build_with_hasher` passes no weigher (as C04-B8)","weigher + custom hasher"),
+"C05-A11":("sync `get` checks expiry after releasing the map lock (as C05-A3)","update of the expired key between two statements of a reader's get; real threads"),
+"C05-B11":("unsync `get` drops the per-entry ttl test after the purge","more than 100 entries expired at once; get beyond the first batch"),
+"C06-A11":("sync lookup paths use one merged expiry helper that returns the ttl verdict before looking at tti","ttl and tti both set, tti < ttl; idle entry looked up before the sweep"),
+"C06-B11":("sync iterator reads the clock once at `iter()` (as C06-B2)","iterator held open across the idle deadline"),
+"C07-A11":("sync update stores its clock reading only if later than the stamp already there","insert reads the clock, another thread's invalidate_all and insert of the key complete, then the first insert's map update lands"),
+"C07-B11":("unsync `invalidate_entries_if` caps the collected keys at one batch (as C07-A5)","more than 100 entries satisfying the predicate"),
+"C08-A11":("sync `handle_upsert` unlinks and drops the nodes admission skipped instead of moving them back","insert(X) then invalidate(LRU key) queued together, then another admitted insert (use after free)"),
+"C08-B11":("sync `build_with_hasher` no longer validates the durations","custom hasher + ttl/tti that overflows the clock (internal panics instead of the documented one)"),
+"C10-A11":("sync `handle_admit` drops `set_policy_weight` (as C10-A2)","key written twice with different weights before the first write is applied, then removed or rewritten"),
+"C10-B11":("dropping a cache handle drains both operation queues","a clone dropped while operations are queued"),
+"C11-A11":("sync `invalidate` queues no Remove op for a not yet admitted entry (as C10-B7)","invalidate racing `handle_upsert` of the same key; real threads"),
+"C11-B11":("sync hidden-entry sweep runs once per invalidate_all (flag consumed even when the batch was exhausted)","no ttl/tti; more than 500 admitted entries at invalidate_all"),
+"C12-A11":("sync `Inner::sync` computes the excess before purging expired entries (as C12-A5)","weigher + expiry; growing update and an expiring entry in one maintenance run"),
+"C12-B11":("deprecated `get_if_present` served by a lookup that records no hit","get_if_present of a resident, then a capacity eviction (and, with tti, its idle deadline)"),
+"C13-A11":("sync `handle_upsert`: oversize guard `>= max` (as C13-B)","newcomer with weight == max_capacity into a full cache"),
+"C13-B11":("unsync `get` (expiry configured) no longer moves the entry to the MRU end (as C12-A)","ttl/tti; fill, get, evicting admission"),
+"C14-A11":("sync `get` queues no hit when the entry's last access has the same clock reading","a get in the clock tick of the key's insert, update or previous applied get"),
+"C14-B11":("sync `apply_reads` skips (and does not record) a hit older than the entry's last_accessed (as C14-B4)","insert, get, update, then maintenance"),
+"C15-A11":("sync `contains_key` invalidates the key when it reports false (as C15-A9)","tti; queued hit; contains_key between the stale and the real idle deadline"),
+"C15-B11":("unsync `contains_key` evicts for capacity before it purges expired entries (as C15-B2)","weigher + ttl; growing update over capacity; expired non-LRU entry; contains_key first"),
+"C16-A11":("unsync iterator compares `deadline < now`","iteration at exactly insert + ttl (or access + tti) before any other operation"),
+"C16-B11":("sync iterator filter returns 'not expired' for admitted entries with an unapplied write","insert, sync, update, invalidate_all (or the deadline), iterate before maintenance"),
+"C17-A11":("1000-year limit for time_to_idle compared in whole seconds","time_to_idle between 1000 y + 1 ns and 1000 y + 999 999 999 ns"),
+"C17-B11":("unsync `Cache::new` switches the popularity sketch on at once","new(n); get before the cache is half full; fill; insert decided by popularity"),
 "C17-B4":("unsync `with_everything` drops zero durations","time_to_live / time_to_idle of exactly 0"),
 }
 rows=[]
